@@ -16,6 +16,8 @@
 -/
 import PomerolModel.Spec.Bridge
 import PomerolModel.Model.TermList
+import PomerolModel.Spec.GFRefine
+import Mathlib.LinearAlgebra.Matrix.Notation
 
 namespace Pomerol.Properties.C01
 open Matrix Complex Pomerol Pomerol.Spec Pomerol.Model.TermList
@@ -368,5 +370,231 @@ example :
       [⟨1, 5⟩, ⟨2, 3⟩]
     (r.1.map (·.res)).sum + (r.2.map (·.res)).sum = 4 := by
   decide
+
+/-! ## the loop structure of the real code
+
+The theorems above sum the extracted formulas over ALL pairs of eigenstates.  The library does not do
+that: `GreensFunction::prepare` selects pairs of blocks by a merge walk over two block bimaps, and for
+every selected pair `GreensFunctionPart::compute` walks the compressed rows of the block of `c` and the
+compressed columns of the block of `c†` in parallel, creating a term only where both store an entry.
+`Model/GFPart.lean` is an executable model of exactly these loops (iterators as positions, reading an
+exhausted iterator is an error, the guard flags of the advancing loops are extracted from the source);
+`Spec/GFRefine.lean` proves that they compute the same sums.
+-/
+
+section Loops
+open Pomerol.Model.GFPart
+
+/-- WALKING THE SPARSE ROWS LOSES NOTHING AND ADDS NOTHING.  Let `Cs` be a compressed row-major
+representation of an `N × M` matrix `C` and `CXs` a compressed column-major representation of an
+`M × N` matrix `CX` (inner indices strictly increasing, stored entries equal the matrix entries, entries
+not stored are zero).  Then the double loop of `GreensFunctionPart::compute` never reads past the end
+of a row or column, terminates, and for every summand `f index1 index2 c cx` that vanishes when `c = 0`
+or `cx = 0`, the sum of `f` over the contributions the loop emits equals the sum of
+`f index1 index2 (C index1 index2) (CX index2 index1)` over ALL pairs `(index1, index2)`.
+(Which contributions are emitted, in which order, each once: `GFRefine.gfpart_contributions`,
+`GFRefine.mem_computeSpec`, `GFRefine.computeSpec_sorted`.) -/
+theorem sparse_walk_is_full_sum {α β : Type} [Zero α] [AddCommMonoid β] {N M : ℕ}
+    (f : ℕ → ℕ → α → α → β) (hf1 : ∀ i k x, f i k 0 x = 0) (hf2 : ∀ i k x, f i k x 0 = 0)
+    {Cs CXs : SpMat α} {C : Matrix (Fin N) (Fin M) α} {CX : Matrix (Fin M) (Fin N) α}
+    (hC : GFRefine.RepresentsRows Cs C) (hCX : GFRefine.RepresentsCols CXs CX) :
+    ∃ l, compute true true (fun _ _ _ _ => true) Cs CXs = .ok l ∧
+      (l.map fun x => f x.1 x.2.1 x.2.2.1 x.2.2.2).sum
+        = ∑ i : Fin N, ∑ j : Fin M, f i.1 j.1 (C i j) (CX j i) :=
+  GFRefine.gfpart_sum_eq_matrix_sum f hf1 hf2 hC hCX
+
+/-- THE LOOP OF ONE PART COMPUTES ITS SHARE OF THE LEHMANN SUM.  For one pair of blocks -- outer block
+with `N` states (Gibbs weights `wO`, energies `EO`), inner block with `M` states (`wI`, `EI`), `C` the
+block `<outer|c|inner>`, `CX` the block `<inner|c†|outer>` -- the terms that the modelled
+`GreensFunctionPart::compute` hands to the term container (extracted residue and pole formulas, extracted
+test `abs(Residue) > tol`), evaluated at any complex `z`, plus the terms of the pairs of states whose
+residue fails the test (explicit second summand; each has `|Residue| ≤ tol`,
+`GFRefine.filtered_residue_small`), add up to the sum of the extracted term formula over ALL pairs
+(outer state, inner state).  With the filter idealised away (`tol < 0`) the second summand vanishes:
+`GFRefine.part_loop_refines_lehmann`; for the whole eigenbasis as one block the right-hand side is
+`d.lehmannG C CX z`, i.e. the definition: `GFRefine.one_block_loop_refines_lehmann` and
+`gf_equals_definition`. -/
+theorem sparse_walk_computes_lehmann_part {N M : ℕ} (wO EO : Fin N → ℝ) (wI EI : Fin M → ℝ)
+    {C : Matrix (Fin N) (Fin M) ℂ} {CX : Matrix (Fin M) (Fin N) ℂ} {Cs CXs : SpMat ℂ}
+    (hC : GFRefine.RepresentsRows Cs C) (hCX : GFRefine.RepresentsCols CXs CX) (tol : ℝ) (z : ℂ) :
+    ∃ ts, computeTerms true true (GFRefine.natExt wO) (GFRefine.natExt wI) (GFRefine.natExt EO)
+        (GFRefine.natExt EI) tol Cs CXs = .ok ts ∧
+      (ts.map fun t => Gen.GF.termFreq t.res t.pole z).sum
+        + (∑ i : Fin N, ∑ j : Fin M,
+            if Gen.GF.residueKept (Gen.GF.residue (C i j) (CX j i) (wO i) (wI j)) tol then 0
+            else Gen.GF.termFreq (Gen.GF.residue (C i j) (CX j i) (wO i) (wI j))
+              (Gen.GF.pole (EI j) (EO i)) z)
+        = ∑ i : Fin N, ∑ j : Fin M, Gen.GF.termFreq (Gen.GF.residue (C i j) (CX j i) (wO i) (wI j))
+            (Gen.GF.pole (EI j) (EO i)) z :=
+  GFRefine.part_loop_refines_lehmann_filtered wO EO wI EI hC hCX tol z
+
+/-- NO PAIR OF BLOCKS IS MISSED AND NONE IS TAKEN TWICE.  `c` is the left view of the block bimap of
+the annihilation operator (pairs `(L, R)` with `<L|c|R>` a non-trivial block, in the order of `L`),
+`cx` the right view of the block bimap of the creation operator (pairs `(L', R')`, in the order of
+`R'`); in a bimap both sides are keys, so `c` is strictly increasing in `L` and `cx` strictly increasing
+in `R'`.  Then the merge walk of `GreensFunction::prepare` terminates and creates a part for `(L, R)`
+if and only if `<L|c|R>` and `<R|c†|L>` are both non-trivial blocks and `L` or `R` is retained by the
+density matrix -- and for no pair twice.  (As a list, in which order: `GFRefine.prepare_selects_matching_pairs`;
+for a multimap the walk WOULD miss pairs: `GFRefine.prepare_needs_unique_keys`.) -/
+theorem block_pairs_complete (retained : ℕ → Bool) (c cx : List (ℕ × ℕ))
+    (hc : GFRefine.SortedByLeft c) (hcx : GFRefine.SortedByRight cx) :
+    ∃ parts, prepare retained c cx = .ok parts ∧ parts.Nodup ∧
+      ∀ L R, (L, R) ∈ parts ↔
+        (L, R) ∈ c ∧ (R, L) ∈ cx ∧ (retained L = true ∨ retained R = true) :=
+  GFRefine.prepare_parts_characterised retained c cx hc hcx
+
+/-! ### a concrete instance (non-vacuity) -/
+
+/-- `C = [1 0 3; 0 5 7]` (2 × 3, row-major) and `CX = [0 1; 2 0; 4 10]` (3 × 2, column-major) -/
+private def exCs : SpMat ℤ := [[(0, 1), (2, 3)], [(1, 5), (2, 7)]]
+private def exCXs : SpMat ℤ := [[(1, 2), (2, 4)], [(0, 1), (2, 10)]]
+private def exC : Matrix (Fin 2) (Fin 3) ℤ := !![1, 0, 3; 0, 5, 7]
+private def exCX : Matrix (Fin 3) (Fin 2) ℤ := !![0, 1; 2, 0; 4, 10]
+
+private theorem exC_represents : GFRefine.RepresentsRows exCs exC where
+  len := rfl
+  sorted := by decide
+  bound := by decide
+  stored := by
+    intro i j v
+    fin_cases i <;> fin_cases j <;> simp [exCs, exC]
+  notStored := by
+    intro i j
+    fin_cases i <;> fin_cases j <;> simp [exCs, exC]
+
+private theorem exCX_represents : GFRefine.RepresentsCols exCXs exCX where
+  len := rfl
+  sorted := by decide
+  bound := by decide
+  stored := by
+    intro i j v
+    fin_cases i <;> fin_cases j <;> simp [exCXs, exCX]
+  notStored := by
+    intro i j
+    fin_cases i <;> fin_cases j <;> simp [exCXs, exCX]
+
+/-- the hypotheses of `sparse_walk_is_full_sum` hold for this pair; the loop emits the two contributions
+at `(0, 2)` and `(1, 2)` -- the only places where row `i` of `C` and column `i` of `CX` both store an
+entry -- and `3·4 + 7·10 = 82` is the full double sum `∑ i j, C i j · CX j i` -/
+example :
+    GFRefine.RepresentsRows exCs exC ∧ GFRefine.RepresentsCols exCXs exCX ∧
+    compute true true (fun _ _ _ _ => true) exCs exCXs = .ok [(0, 2, 3, 4), (1, 2, 7, 10)] ∧
+    (([(0, 2, 3, 4), (1, 2, 7, 10)] : List (Contribution ℤ)).map fun x => x.2.2.1 * x.2.2.2).sum = 82 ∧
+    (∑ i : Fin 2, ∑ j : Fin 3, exC i j * exCX j i) = 82 :=
+  ⟨exC_represents, exCX_represents, by decide, by decide, by decide⟩
+
+/-- ... and the theorem applied to it -/
+example : ∃ l, compute true true (fun _ _ _ _ => true) exCs exCXs = .ok l ∧
+    (l.map fun x => x.2.2.1 * x.2.2.2).sum = ∑ i : Fin 2, ∑ j : Fin 3, exC i j * exCX j i :=
+  sparse_walk_is_full_sum (fun _ _ c cx => c * cx) (fun _ _ x => zero_mul x)
+    (fun _ _ x => mul_zero x) exC_represents exCX_represents
+
+/-- block pairs: `c` maps 1→0, 2→1, 4→3 (as `(left, right)`: `<0|c|1>`, `<1|c|2>`, `<3|c|4>`),
+`c†` has `<1|c†|0>`, `<5|c†|1>`, `<4|c†|3>`; parts are created for `(0, 1)` and `(3, 4)` -/
+example : prepare (fun _ => true) [(0, 1), (1, 2), (3, 4)] [(1, 0), (5, 1), (4, 3)]
+    = .ok [(0, 1), (3, 4)] := by decide
+
+/-- THE WHOLE LOOP STRUCTURE COMPUTES THE LEHMANN SUM.  The eigenbasis is split into `B` blocks (block
+`b` has `sz b` states); `c`, `cx` are the bimap views listing the non-trivial blocks of the matrices
+`C`, `CX` of `c`, `c†` (both sides keys; block numbers below `B`); `Cblk L R` / `CXblk R L` are compressed
+row-major / column-major representations of the blocks `<L|c|R>` / `<R|c†|L>`.  Then the model of
+`GreensFunction::prepare` followed by `GreensFunction::compute` -- merge walk over the bimaps, and for
+every part created the sparse double loop with the extracted residue and pole formulas (no truncation
+of the density matrix; residue filter idealised away, `tol < 0`) -- runs without error, and the values
+at `z` of all terms of all parts add up to the Lehmann sum `d.lehmannG C CX z` over ALL pairs of
+eigenstates, which at `z = iω_n` is the definition (`gf_equals_definition`). -/
+theorem loops_compute_lehmann_sum {B : ℕ} {sz : Fin B → ℕ} (d : EigenData (GFRefine.Basis sz))
+    (C CX : Matrix (GFRefine.Basis sz) (GFRefine.Basis sz) ℂ) (c cx : List (ℕ × ℕ))
+    (hc : GFRefine.SortedByLeft c) (hcx : GFRefine.SortedByRight cx)
+    (hcC : GFRefine.CoversBlocks c C) (hcCX : GFRefine.CoversBlocks cx CX)
+    (hrange : ∀ p ∈ c, p.1 < B ∧ p.2 < B) (Cblk CXblk : ℕ → ℕ → SpMat ℂ)
+    (hCblk : ∀ L R : Fin B, GFRefine.RepresentsRows (Cblk L.1 R.1) (GFRefine.block C L R))
+    (hCXblk : ∀ L R : Fin B, GFRefine.RepresentsCols (CXblk R.1 L.1) (GFRefine.block CX R L))
+    (tol : ℝ) (htol : tol < 0) (z : ℂ) :
+    ∃ tss, greensFunctionTerms true true (fun _ => true) c cx (GFRefine.blockTable d.w)
+        (GFRefine.blockTable d.E) tol Cblk CXblk = .ok tss ∧
+      (tss.map fun ts => (ts.map fun t => Gen.GF.termFreq t.res t.pole z).sum).sum
+        = d.lehmannG C CX z :=
+  GFRefine.whole_loop_refines_lehmann d C CX c cx hc hcx hcC hcCX hrange Cblk CXblk hCblk hCXblk
+    tol htol z
+
+/-! ### a concrete instance of the hypotheses of `loops_compute_lehmann_sum` (non-vacuity) -/
+
+section WholeExample
+open GFRefine
+
+/-- two blocks with one state each -/
+private def sz2 : Fin 2 → ℕ := fun _ => 1
+private def wC : Matrix (Basis sz2) (Basis sz2) ℂ := fun a b => if a.1 = 0 ∧ b.1 = 1 then 2 else 0
+private def wCX : Matrix (Basis sz2) (Basis sz2) ℂ := fun a b => if a.1 = 1 ∧ b.1 = 0 then 3 else 0
+private def wCblk : ℕ → ℕ → SpMat ℂ := fun l r => if l = 0 ∧ r = 1 then [[(0, 2)]] else [[]]
+private def wCXblk : ℕ → ℕ → SpMat ℂ := fun l r => if l = 1 ∧ r = 0 then [[(0, 3)]] else [[]]
+
+private theorem w_sorted : SortedByLeft [(0, 1)] ∧ SortedByRight [(1, 0)] ∧
+    (∀ p ∈ [(0, 1)], p.1 < 2 ∧ p.2 < 2) := by decide
+
+private theorem w_coversC : CoversBlocks [(0, 1)] wC := by
+  intro L R h
+  by_contra hn
+  apply h
+  ext i j
+  show (if L = 0 ∧ R = 1 then (2 : ℂ) else 0) = 0
+  rw [if_neg]
+  rintro ⟨rfl, rfl⟩
+  exact hn (by simp)
+
+private theorem w_coversCX : CoversBlocks [(1, 0)] wCX := by
+  intro L R h
+  by_contra hn
+  apply h
+  ext i j
+  show (if L = 1 ∧ R = 0 then (3 : ℂ) else 0) = 0
+  rw [if_neg]
+  rintro ⟨rfl, rfl⟩
+  exact hn (by simp)
+
+private theorem w_repC : ∀ L R : Fin 2, RepresentsRows (wCblk L.1 R.1) (block wC L R) := by
+  intro L R
+  by_cases h : L = 0 ∧ R = 1
+  · obtain ⟨rfl, rfl⟩ := h
+    exact representsRows_single (2 : ℂ)
+  · have h' : ¬ (L.1 = 0 ∧ R.1 = 1) := fun ⟨a, b⟩ => h ⟨Fin.ext a, Fin.ext b⟩
+    have e : block wC L R = 0 := by
+      ext i j
+      show (if L = 0 ∧ R = 1 then (2 : ℂ) else 0) = 0
+      rw [if_neg h]
+    unfold wCblk
+    rw [if_neg h', e]
+    exact representsRows_zero 1 1
+
+private theorem w_repCX : ∀ L R : Fin 2, RepresentsCols (wCXblk R.1 L.1) (block wCX R L) := by
+  intro L R
+  by_cases h : R = 1 ∧ L = 0
+  · obtain ⟨rfl, rfl⟩ := h
+    exact representsRows_single (3 : ℂ)
+  · have h' : ¬ (R.1 = 1 ∧ L.1 = 0) := fun ⟨a, b⟩ => h ⟨Fin.ext a, Fin.ext b⟩
+    have e : (block wCX R L).transpose = 0 := by
+      ext i j
+      show (if R = 1 ∧ L = 0 then (3 : ℂ) else 0) = 0
+      rw [if_neg h]
+    unfold wCXblk RepresentsCols
+    rw [if_neg h', e]
+    exact representsRows_zero 1 1
+
+/-- all hypotheses hold for: two blocks of one state each, `<0|c|1> = 2`, `<1|c†|0> = 3`, every
+eigenvalue `0`, `β = 1`; hence the modelled loops compute the Lehmann sum of this system -/
+example (z : ℂ) :
+    ∃ tss, greensFunctionTerms true true (fun _ => true) [(0, 1)] [(1, 0)]
+        (blockTable (EigenData.w (ι := Basis sz2) ⟨1, one_pos, fun _ => 0⟩))
+        (blockTable (EigenData.E (ι := Basis sz2) ⟨1, one_pos, fun _ => 0⟩)) (-1) wCblk wCXblk
+          = .ok tss ∧
+      (tss.map fun ts => (ts.map fun t => Gen.GF.termFreq t.res t.pole z).sum).sum
+        = EigenData.lehmannG (ι := Basis sz2) ⟨1, one_pos, fun _ => 0⟩ wC wCX z :=
+  loops_compute_lehmann_sum _ wC wCX [(0, 1)] [(1, 0)] w_sorted.1 w_sorted.2.1 w_coversC w_coversCX
+    w_sorted.2.2 wCblk wCXblk w_repC w_repCX (-1) (by norm_num) z
+
+end WholeExample
+
+end Loops
 
 end Pomerol.Properties.C01
